@@ -652,7 +652,6 @@ func checkAndPropagateArgs(
 		if isNotAcceptIdx(sortedArgTs, argIdx) {
 			switch definedArgT.HasDefault() {
 			case true:
-				argIdx++
 				defineArgIdx++
 
 				continue
